@@ -157,6 +157,15 @@ def add (digestOf : Str → Str → Except Err Str) (tbl : Table) (rel ctype : S
         | .ok d => (tbl.set key (ctype, d), .ok ())
         | .error e => (tbl, .error e)
 
+/-- `compute_checksum(path, type)` on the file system `files`, the algorithm found by NAME; a name that is not
+modelled raises (hashlib: `ValueError: unsupported hash type`) -/
+def digestByName (files : Str → Option Bytes) : Str → Str → Except Err Str := fun p t =>
+  match files p with
+  | some c => (match computeByName t c with
+    | some d => .ok d
+    | none => .error .valueError)
+  | none => .error .other
+
 /-! ### serialize / deserialize -/
 
 /-- `parser.set(section, path, "%s:%s" % (type, value))` for every entry -/
